@@ -96,6 +96,11 @@ func vC01OptErr(err error) string {
 	return "(Some " + vC01ErrTerm(err) + ")"
 }
 
+// a reply that denies (NXDOMAIN, or NOERROR without data) and shows nothing: no SOA, no NSEC / NSEC3, no signature, no AD
+func vC01BareDenial(m *dns.Msg) bool {
+	return m != nil && (m.Rcode == dns.RcodeNameError || m.Rcode == dns.RcodeSuccess) && len(m.Answer) == 0 && len(m.Ns) == 0 && !m.AuthenticatedData
+}
+
 // ---- scripted Store / Queryer ----
 
 type vC01Store struct{ tab map[string]*dns.Msg }
@@ -180,7 +185,7 @@ func (x *vC01World) nsec(z *vC01Zone, owner string, types ...uint16) []dns.RR {
 	}
 	if z.nsec3 {
 		h := dns.HashName(owner, dns.SHA1, 0, "")
-		n3 := &dns.NSEC3{Hdr: dns.RR_Header{Name: h + "." + z.name, Rrtype: dns.TypeNSEC3, Class: dns.ClassINET, Ttl: 60}, Hash: dns.SHA1, Flags: 0, Iterations: 0, SaltLength: 0, Salt: "", HashLength: 20,
+		n3 := &dns.NSEC3{Hdr: dns.RR_Header{Name: x.sub(h, z.name), Rrtype: dns.TypeNSEC3, Class: dns.ClassINET, Ttl: 60}, Hash: dns.SHA1, Flags: 0, Iterations: 0, SaltLength: 0, Salt: "", HashLength: 20,
 			NextDomain: vC01HashPlus(h), TypeBitMap: types}
 		return x.sign(z, z.zsk, n3)
 	}
